@@ -33,7 +33,7 @@ func (x *Exec) readerContent(st *State, iface *Term) *Term {
 	}
 	tag := IntLit(int64(x.P.typeTag(types.NewPointer(bufT))))
 	theU.DeclFunc("unbox!Int", SInt, SInt)
-	return Ite(Eq(App("typeof", SInt, iface), tag), x.bufGet(st, App("unbox!Int", SInt, iface)), rd)
+	return Ite(Eq(App("typeof", SInt, iface), tag), x.bufGetT(st, App("unbox!Int", SInt, iface), types.NewPointer(bufT)), rd)
 }
 
 // externalMods: heap keys an external function may write (for mod-set inference).
@@ -44,6 +44,8 @@ func externalMods(callee *ssa.Function, c *ssa.CallCommon) []string {
 		switch callee.Name() {
 		case "Len", "String", "Bytes", "Cap":
 			return nil
+		case "ReadFrom":
+			return []string{ghBuf, ghRd}
 		}
 		return []string{ghBuf}
 	case n == "container/heap.Push", n == "container/heap.Pop", n == "container/heap.Fix", n == "container/heap.Init", n == "container/heap.Remove":
@@ -76,12 +78,53 @@ func externalIfaceMods(c *ssa.CallCommon) ([]string, bool) {
 	return nil, false
 }
 
-func (x *Exec) bufGet(st *State, b *Term) *Term {
-	return Select(st.heapArr(ghBuf, heapSorts[ghBuf]), b)
+// bufKey: the object whose ghost contents a writer value denotes. Writing to a *cwriter.Writer
+// writes its embedded *bytes.Buffer (promoted Write); every other writer is its own key.
+func (x *Exec) bufKey(st *State, w *Term) *Term { return x.bufKeyT(st, w, nil) }
+
+// bufKeyT uses the static type of the writer expression when it is known: only an interface
+// value needs the dynamic test.
+func (x *Exec) bufKeyT(st *State, w *Term, ty types.Type) *Term {
+	wt := x.P.lookupTypeName(modulePath+"/cwriter", "Writer")
+	if wt == nil {
+		return w
+	}
+	if ty != nil {
+		if _, isIface := ty.Underlying().(*types.Interface); !isIface {
+			if pt, ok := ty.Underlying().(*types.Pointer); !ok || !types.Identical(pt.Elem(), wt.Type()) {
+				return w // a concrete writer other than *cwriter.Writer is its own key
+			}
+		}
+	}
+	stt, ok := wt.Type().Underlying().(*types.Struct)
+	if !ok {
+		return w
+	}
+	for i := 0; i < stt.NumFields(); i++ {
+		if stt.Field(i).Name() == "Buffer" {
+			k := regHeap(fieldKey(wt.Type(), i), heapSortField(wt.Type(), i))
+			tag := IntLit(int64(x.P.typeTag(types.NewPointer(wt.Type()))))
+			if ty != nil {
+				if _, isIface := ty.Underlying().(*types.Interface); !isIface {
+					return Select(st.heapArr(k, heapSorts[k]), w) // statically a *cwriter.Writer
+				}
+			}
+			return Ite(Eq(App("typeof", SInt, w), tag), Select(st.heapArr(k, heapSorts[k]), w), w)
+		}
+	}
+	return w
 }
 
-func (x *Exec) bufSet(st *State, b, v *Term) {
-	st.heap[ghBuf] = Store(st.heapArr(ghBuf, heapSorts[ghBuf]), b, v)
+func (x *Exec) bufGet(st *State, b *Term) *Term { return x.bufGetT(st, b, nil) }
+
+func (x *Exec) bufSet(st *State, b, v *Term) { x.bufSetT(st, b, nil, v) }
+
+func (x *Exec) bufGetT(st *State, b *Term, ty types.Type) *Term {
+	return Select(st.heapArr(ghBuf, heapSorts[ghBuf]), x.bufKeyT(st, b, ty))
+}
+
+func (x *Exec) bufSetT(st *State, b *Term, ty types.Type, v *Term) {
+	st.heap[ghBuf] = Store(st.heapArr(ghBuf, heapSorts[ghBuf]), x.bufKeyT(st, b, ty), v)
 }
 
 func (x *Exec) errResult(st *State) *Term {
@@ -95,6 +138,10 @@ func (x *Exec) external(st *State, site ssa.Instruction, callee *ssa.Function, c
 	n := callee.String()
 	x.extUsed[n] = true
 	at := func(i int) *Term { return x.term(st, args[i], c.Args[i].Type()) }
+	var bbT types.Type
+	if bt := x.P.lookupNamedType("bytes", "Buffer"); bt != nil {
+		bbT = types.NewPointer(bt)
+	}
 	switch n {
 	case "math.Round":
 		k := x.freshVar("round", SInt)
@@ -154,50 +201,65 @@ func (x *Exec) external(st *State, site ssa.Instruction, callee *ssa.Function, c
 		return true
 	case "(*bytes.Buffer).WriteString", "(*bytes.Buffer).Write":
 		b, s := at(0), at(1)
-		x.bufSet(st, b, x.concat(st, x.bufGet(st, b), s))
+		x.bufSetT(st, b, bbT, x.concat(st, x.bufGetT(st, b, bbT), s))
 		x.setResult(st, res, Val{Tup: []Val{{T: x.slenOf(st, s)}, {T: Zero}}})
 		return true
 	case "(*bytes.Buffer).WriteByte":
 		b := at(0)
 		c1 := x.freshVar("byte", SStr)
 		st.add(Eq(App("slen", SInt, c1), One), Ge(App("dw", SInt, c1), Zero), Le(App("dw", SInt, c1), One))
-		x.bufSet(st, b, x.concat(st, x.bufGet(st, b), c1))
+		x.bufSetT(st, b, bbT, x.concat(st, x.bufGetT(st, b, bbT), c1))
 		x.setResult(st, res, Val{T: Zero})
 		return true
 	case "(*bytes.Buffer).Reset":
-		x.bufSet(st, at(0), strEmpty)
+		x.bufSetT(st, at(0), bbT, strEmpty)
 		return true
 	case "(*bytes.Buffer).Len":
-		x.setResult(st, res, Val{T: x.slenOf(st, x.bufGet(st, at(0)))})
+		x.setResult(st, res, Val{T: x.slenOf(st, x.bufGetT(st, at(0), bbT))})
 		return true
 	case "(*bytes.Buffer).String", "(*bytes.Buffer).Bytes":
-		x.setResult(st, res, Val{T: x.bufGet(st, at(0))})
+		x.setResult(st, res, Val{T: x.bufGetT(st, at(0), bbT)})
 		return true
 	case "bytes.NewBuffer":
 		r := x.newRef(st, "buffer")
-		x.bufSet(st, r, at(0))
+		x.bufSetT(st, r, bbT, at(0))
 		x.setResult(st, res, Val{T: r})
 		return true
 	case "(*bytes.Buffer).ReadFrom":
-		// appends whatever the reader yields; the amount is unknown here
-		b := at(0)
+		// reads the reader to the end: on success the buffer gains exactly the reader's
+		// (ghost) contents and the reader is left empty
+		b, r := at(0), at(1)
+		src := x.readerContent(st, r)
 		add := x.freshVar("readfrom", SStr)
 		x.strFacts(st, add)
-		x.bufSet(st, b, x.concat(st, x.bufGet(st, b), add))
+		e := x.errResult(st)
+		st.add(Implies(Eq(e, Zero), Eq(add, src)))
+		x.bufSetT(st, b, bbT, x.concat(st, x.bufGetT(st, b, bbT), add))
+		x.rdSet(st, r, Ite(Eq(e, Zero), strEmpty, x.freshVar("rdrest", SStr)))
 		nn := x.freshVar("n", SInt)
 		st.add(Ge(nn, Zero))
-		x.setResult(st, res, Val{Tup: []Val{{T: nn}, {T: x.errResult(st)}}})
+		x.setResult(st, res, Val{Tup: []Val{{T: nn}, {T: e}}})
 		return true
 	case "(*bytes.Buffer).WriteTo":
-		b := at(0)
+		// drains the buffer into w: on success w gains exactly the buffer's contents
+		b, w := at(0), at(1)
+		content := x.bufGetT(st, b, bbT)
 		nn := x.freshVar("n", SInt)
-		st.add(Ge(nn, Zero), Le(nn, x.slenOf(st, x.bufGet(st, b))))
+		st.add(Ge(nn, Zero), Le(nn, x.slenOf(st, content)))
 		rest := x.freshVar("rest", SStr)
 		x.strFacts(st, rest)
 		e := x.errResult(st)
 		st.add(Implies(Eq(e, Zero), Eq(rest, strEmpty)))
-		x.bufSet(st, b, rest)
+		moved := x.freshVar("moved", SStr)
+		x.strFacts(st, moved)
+		st.add(Implies(Eq(e, Zero), Eq(moved, content)))
+		x.bufSetT(st, b, bbT, rest)
+		x.bufSetT(st, w, c.Args[1].Type(), x.concat(st, x.bufGetT(st, w, c.Args[1].Type()), moved))
 		x.setResult(st, res, Val{Tup: []Val{{T: nn}, {T: e}}})
+		return true
+	case "strconv.AppendInt":
+		theU.DeclFunc("itoa", SStr, SInt)
+		x.setResult(st, res, Val{T: x.concat(st, at(0), App("itoa", SStr, at(1)))})
 		return true
 	case "io.WriteString":
 		x.writeModel(st, at(0), at(1), res)
